@@ -26,6 +26,8 @@ class G:
         self.p_comment = comments
         self.nmix = 0
         self.silent = silent      # also sprinkle // comments and /*! comments (C36)
+        self.loops = []           # enclosing loops whose variable is in scope: (id, n)
+        self.nloop = 0
 
     def mark(self):
         self.n += 1
@@ -65,6 +67,22 @@ class G:
         k = rng.random()
         if k < self.p_comment:
             return self.comment()
+        # inside a loop: statements that depend on the loop variable
+        if self.loops and d > 0 and rng.random() < 0.35:
+            L, n = rng.choice(self.loops)
+            kk = rng.randrange(n)
+            j = rng.random()
+            if j < 0.35:
+                then = [["e", f"boom{self.mark():03d}"]]
+            elif j < 0.5 and self.nmix > 0:
+                then = [["inc", rng.randrange(self.nmix), None]]
+            else:
+                then = self.body(d - 1, in_rule, has_parent, in_mixin, in_content, 0, 2)
+            return ["ifv", L, kk, then, self.body(d - 1, in_rule, has_parent, in_mixin, in_content, 0, 2)]
+        if self.loops and in_rule and rng.random() < 0.08:
+            L, n = rng.choice(self.loops)
+            m = self.mark()
+            return ["dfn", L, rng.randrange(n), f"p{m:03d}", f"v{m:03d}"]
         k = rng.random()
         leafy = d <= 0
         if in_rule and (k < 0.3 or leafy):
@@ -96,9 +114,20 @@ class G:
             c = rng.random() < 0.6
             return ["if", c, self.body(d - 1, in_rule, has_parent, in_mixin, in_content, 0, 2),
                     self.body(d - 1, in_rule, has_parent, in_mixin, in_content, 0, 2)]
-        if k < 0.92:
+        if k < 0.90:
             return ["loop", rng.choice([0, 1, 2, 2, 3]), self.body(d - 1, in_rule, has_parent, in_mixin, in_content, 0, 2)]
-        if k < 0.97 and self.nmix > 0:
+        if k < 0.935 and not in_mixin:
+            # a loop whose body looks at the loop variable (@each / @for / @while)
+            self.nloop += 1
+            L, n = self.nloop, rng.choice([0, 1, 2, 3, 3])
+            if n > 0:
+                self.loops.append((L, n))
+                b = self.body(d - 1, in_rule, has_parent, in_mixin, in_content, 1, 3)
+                self.loops.pop()
+            else:
+                b = self.body(d - 1, in_rule, has_parent, in_mixin, in_content, 0, 2)
+            return ["each", rng.choice(["each", "for", "while"]), L, n, b]
+        if k < 0.975 and self.nmix > 0:
             idx = rng.randrange(self.nmix)
             content = None if rng.random() < 0.4 else self.body(d - 1, in_rule, False if not in_rule else has_parent,
                                                                in_mixin, True, 0, 2)
@@ -172,6 +201,20 @@ def stmt_scss(s, ind=0):
     if t == "loop":
         items = " ".join("abcdefg"[i] for i in range(s[1])) or "()"
         return f"{p}@each $i in {items} {{\n{body_scss(s[2], ind + 1)}{p}}}\n"
+    if t == "each":
+        kind, L, n, b = s[1], s[2], s[3], s[4]
+        inner = body_scss(b, ind + 1)
+        if kind == "each":
+            items = " ".join(f"i{j}" for j in range(n)) or "()"
+            return f"{p}@each $v{L} in {items} {{\n{inner}{p}}}\n"
+        if kind == "for":
+            return f"{p}@for $v{L} from 0 to {n} {{\n{inner}{p}}}\n"
+        return (f"{p}$v{L}: -1;\n{p}@while $v{L} < {n - 1} {{\n{p}  $v{L}: $v{L} + 1;\n{inner}{p}}}\n")
+    if t == "ifv":
+        return (f"{p}@if $v{s[1]} == {item_text(s[1], s[2])} {{\n{body_scss(s[3], ind + 1)}{p}}} @else {{\n"
+                f"{body_scss(s[4], ind + 1)}{p}}}\n")
+    if t == "dfn":
+        return f"{p}{s[3]}: chk($v{s[1]}, {item_text(s[1], s[2])}, {s[4]});\n"
     if t == "inc":
         if s[2] is None:
             return f"{p}@include m{s[1]};\n"
@@ -181,8 +224,41 @@ def stmt_scss(s, ind=0):
     raise ValueError(s)
 
 
+LOOP_KIND = {}     # loop id -> kind, filled while printing (items are names for @each, numbers otherwise)
+
+
+def item_text(L, k):
+    return f"i{k}" if LOOP_KIND.get(L, "each") == "each" else str(k)
+
+
+def collect_kinds(l):
+    for s in l:
+        if s[0] == "each":
+            LOOP_KIND[s[2]] = s[1]
+        for x in s[1:]:
+            if isinstance(x, list) and x and isinstance(x[0], list):
+                collect_kinds(x)
+
+
+def uses(l, tag):
+    for s in l:
+        if s[0] == tag:
+            return True
+        for x in s[1:]:
+            if isinstance(x, list) and x and isinstance(x[0], list) and uses(x, tag):
+                return True
+    return False
+
+
+CHK = '@function chk($x, $bad, $m) {\n  @if $x == $bad {\n    @error "boom#{$m}";\n  }\n  @return $m;\n}\n'
+
+
 def program_scss(pr):
-    out = ""
+    LOOP_KIND.clear()
+    collect_kinds(pr["main"])
+    for b in pr["mixins"]:
+        collect_kinds(b)
+    out = CHK if (uses(pr["main"], "dfn") or any(uses(b, "dfn") for b in pr["mixins"])) else ""
     for i, b in enumerate(pr["mixins"]):
         out += f"@mixin m{i} {{\n{body_scss(b, 1)}}}\n"
     return out + body_scss(pr["main"], 0)
@@ -195,6 +271,9 @@ def gen_scss(rng):
 # ---------------------------------------------------------------------------
 def sel_coq(s):
     return {"p": "SPlain", "s": "SSuffix", "u": "SUnder"}[s[0]] + " " + cbytes(s[1])
+
+
+ENV = {}      # loop id -> current iteration (None while printing the body check_body sees)
 
 
 def body_coq(l):
@@ -227,6 +306,22 @@ def stmt_coq(s):
         return f"(SIf {cbool(s[1])} {body_coq(s[2])} {body_coq(s[3])})"
     if t == "loop":
         return f"(SLoop {s[1]} {body_coq(s[2])})"
+    if t == "each":
+        L, n, b = s[2], s[3], s[4]
+        ENV[L] = None
+        proto = body_coq(b)
+        bodies = []
+        for j in range(n):
+            ENV[L] = j
+            bodies.append(body_coq(b))
+        del ENV[L]
+        return f"(SEach {proto} {clist(bodies)})"
+    if t == "ifv":
+        return f"(SIf {cbool(ENV.get(s[1]) == s[2])} {body_coq(s[3])} {body_coq(s[4])})"
+    if t == "dfn":
+        if ENV.get(s[1]) == s[2]:
+            return f"(SError {cbytes('boom' + s[4])})"
+        return f"(SDecl {cbytes(s[3])} {cbytes(s[4])})"
     if t == "inc":
         return f"(SInclude {s[1]} {opt(s[2], body_coq)})"
     if t == "content":
@@ -278,6 +373,10 @@ def shrink_program(pr):
                 subs = [2]
             elif s[0] == "inc" and s[2] is not None:
                 subs = [2]
+            elif s[0] == "each":
+                subs = [4]
+            elif s[0] == "ifv":
+                subs = [3, 4]
             for j in subs:
                 for v in variants(s[j]):
                     s2 = list(s)
@@ -336,7 +435,18 @@ class G20:
             kf = [["r", [["p", rng.choice(["from", "to", "50%"])]], [self.decl()]] for _ in range(rng.randint(1, 2))]
             return ["a", "keyframes", rng.choice(["k", "spin"]), kf]
         if k < 0.95:
-            return ["ar", None, [["r", self.g.sels(has_parent), self.body(d - 1, True, True)] for _ in range(rng.randint(1, 2))]]
+            inner = []
+            for _ in range(rng.randint(1, 3)):
+                if has_parent and rng.random() < 0.5:
+                    # `@at-root &.x` / `@at-root b &` directly inside a selector-less @at-root
+                    amp = [rng.choice([["s", rng.choice(SUFFIX)], ["u", rng.choice(PLAIN)]])]
+                    if rng.random() < 0.3:
+                        amp.append(["p", rng.choice(PLAIN)])
+                        rng.shuffle(amp)
+                    inner.append(["ar", amp, self.body(d - 1, True, True)])
+                else:
+                    inner.append(["r", self.g.sels(has_parent), self.body(d - 1, True, True)])
+            return ["ar", None, inner]
         return ["ar", self.g.sels(has_parent), self.body(d - 1, True, True)]
 
     def program(self):
